@@ -74,18 +74,86 @@ theorem fstOutL_err {x : Outcome (Node × Int)} {er : Err} (h : fstOutL x = .err
   | err e => simp only [fstOutL, Outcome.err.injEq] at h; subst h; rfl
   | panic => cases h
 
+/-! ### the RFC 6901 strictness the legacy package does not have
+
+The legacy package reads a pointer without a leading `/` as if the text before the first `/`
+were not there; the specification rejects it (`parentUnreachable`, or — for `move` / `copy` with
+such a destination — the failure of the source half).  So the refinement holds on the operations
+whose pointers parse where that matters (`strictOp`, decidable; the harness excludes the same
+operations: `legacyLoose`, `JP/Driver.lean`, `handleLApply`). -/
+
+/-- a pointer inside RFC 6901: empty, or starting with `/` -/
+def strictPtr (p : Bytes) : Bool := (Spec.parsePointer p).isSome
+
+/-- the domain of the refinement, per decoded operation: the `path` of a `remove`, `move` or
+`copy` and the `from` of a `move` parse.  (`add`, `replace`, `test` with a malformed `path`, and a
+`copy` with a malformed `from`, need no exclusion: the specification fails with a cause that is not
+listed for them.) -/
+def strictOp (op : Op) : Bool :=
+  (!(op.kind = ascii "remove" || op.kind = ascii "move" || op.kind = ascii "copy") ||
+    (match op.path with
+     | .ok p => strictPtr p
+     | _ => true)) &&
+  (!(op.kind = ascii "move") ||
+    (match op.frm with
+     | .ok f => strictPtr f
+     | _ => true))
+
+def strictOps (ops : List Op) : Bool := ops.all strictOp
+
+theorem strictOps_iff {ops : List Op} : strictOps ops = true ↔ ∀ op ∈ ops, strictOp op = true := by
+  simp [strictOps, List.all_eq_true]
+
+theorem strictOp_path {op : Op} {p : Bytes} (h : strictOp op = true)
+    (hk : op.kind = ascii "remove" ∨ op.kind = ascii "move" ∨ op.kind = ascii "copy")
+    (hp : op.path = .ok p) : Spec.parsePointer p ≠ none := by
+  intro hn
+  simp only [strictOp, hp, strictPtr, hn, Option.isSome_none, Bool.and_eq_true, Bool.or_eq_true,
+    Bool.not_eq_true', Bool.or_eq_false_iff, decide_eq_false_iff_not, Bool.false_eq_true, or_false] at h
+  rcases hk with hk | hk | hk
+  · exact h.1.1.1 hk
+  · exact h.1.1.2 hk
+  · exact h.1.2 hk
+
+theorem strictOp_frm {op : Op} {f : Bytes} (h : strictOp op = true)
+    (hk : op.kind = ascii "move") (hf : op.frm = .ok f) : Spec.parsePointer f ≠ none := by
+  intro hn
+  simp only [strictOp, hf, strictPtr, hn, Option.isSome_none, Bool.and_eq_true, Bool.or_eq_true,
+    Bool.not_eq_true', decide_eq_false_iff_not, Bool.false_eq_true, or_false] at h
+  exact h.2 hk
+
+theorem specKind_eq {k : Bytes} {sk : Spec.OpKind} (h : specKind k = some sk) :
+    (sk = .add ∧ k = ascii "add") ∨ (sk = .remove ∧ k = ascii "remove") ∨
+    (sk = .replace ∧ k = ascii "replace") ∨ (sk = .move ∧ k = ascii "move") ∨
+    (sk = .copy ∧ k = ascii "copy") ∨ (sk = .test ∧ k = ascii "test") := by
+  simp only [specKind] at h
+  by_cases h1 : k = ascii "add"
+  · rw [if_pos h1] at h; cases h; exact .inl ⟨rfl, h1⟩
+  rw [if_neg h1] at h
+  by_cases h2 : k = ascii "remove"
+  · rw [if_pos h2] at h; cases h; exact .inr (.inl ⟨rfl, h2⟩)
+  rw [if_neg h2] at h
+  by_cases h3 : k = ascii "replace"
+  · rw [if_pos h3] at h; cases h; exact .inr (.inr (.inl ⟨rfl, h3⟩))
+  rw [if_neg h3] at h
+  by_cases h4 : k = ascii "move"
+  · rw [if_pos h4] at h; cases h; exact .inr (.inr (.inr (.inl ⟨rfl, h4⟩)))
+  rw [if_neg h4] at h
+  by_cases h5 : k = ascii "copy"
+  · rw [if_pos h5] at h; cases h; exact .inr (.inr (.inr (.inr (.inl ⟨rfl, h5⟩))))
+  rw [if_neg h5] at h
+  by_cases h6 : k = ascii "test"
+  · rw [if_pos h6] at h; cases h; exact .inr (.inr (.inr (.inr (.inr ⟨rfl, h6⟩))))
+  rw [if_neg h6] at h
+  cases h
+
 /-! ### specification side: outside the domain -/
 
-theorem spec_nopointer {so : Spec.Opts} {sz acc : Nat} {doc : Value} {sop : Spec.Op}
-    (h : Spec.parsePointer sop.path = none) : Spec.applyOp so sz acc doc sop = .unspec := by
-  simp only [Spec.applyOp, h]
-
-theorem spec_novalue {so : Spec.Opts} {sz acc : Nat} {doc : Value} {sop : Spec.Op}
-    (hk : sop.kind = .add ∨ sop.kind = .replace) (hv : sop.value = none) :
+theorem spec_novalue {so : Spec.Opts} {sz acc : Nat} {doc : Value} {sop : Spec.Op} {toks : List Bytes}
+    (hk : sop.kind = .add ∨ sop.kind = .replace) (hv : sop.value = none)
+    (hp : Spec.parsePointer sop.path = some toks) :
     Spec.applyOp so sz acc doc sop = .unspec := by
-  cases hp : Spec.parsePointer sop.path with
-  | none => simp only [Spec.applyOp, hp]
-  | some toks => rcases hk with hk | hk <;> simp only [Spec.applyOp, hp, hk, hv]
+  rcases hk with hk | hk <;> simp only [Spec.applyOp, hp, hk, hv]
 
 theorem spec_remove_root {so : Spec.Opts} {sz acc : Nat} {doc : Value} {sop : Spec.Op}
     (hk : sop.kind = .remove) (hp : Spec.parsePointer sop.path = some []) :
@@ -130,14 +198,24 @@ theorem testValOK {op : Op} (hop : OpOK op) (hk : op.kind = ascii "test") : Test
 /-! ### one operation on `den root` (all kinds but `test`) -/
 
 theorem applyOp_den_refines (neg : Bool) (root : Node) (hr : Inv root) (hc : isDA root = true)
-    (op : Op) (sop : Spec.Op) (hs : specOp op = some sop) (hop : OpOK op) (hnt : sop.kind ≠ .test)
+    (op : Op) (sop : Spec.Op) (hs : specOp op = some sop) (hop : OpOK op)
+    (hst : strictOp op = true) (hnt : sop.kind ≠ .test)
     (sz acc : Nat) (acci : Int) :
     OpRefL sop.kind (Spec.applyOp (specOpts neg) sz acc (den root) sop)
       (fstOutL (applyOp neg 0 root acci op)) := by
   obtain ⟨k, path, hkind, hpath, rfl⟩ := specOp_some hs
   simp only at hnt ⊢
   cases hp : Spec.parsePointer path with
-  | none => rw [spec_nopointer (by exact hp)]; trivial
+  | none =>
+    -- a pointer without a leading `/`: excluded for remove / move / copy; for add / replace the
+    -- specification fails with a cause that is not listed
+    rcases specKind_eq hkind with ⟨rfl, _⟩ | ⟨rfl, hk⟩ | ⟨rfl, _⟩ | ⟨rfl, hk⟩ | ⟨rfl, hk⟩ | ⟨rfl, _⟩
+    · rw [Impl.spec_path_none (by exact hp) (Or.inl rfl)]; simp [OpRefL, listed]
+    · exact absurd hp (strictOp_path hst (Or.inl hk) hpath)
+    · rw [Impl.spec_path_none (by exact hp) (Or.inr (Or.inl rfl))]; simp [OpRefL, listed]
+    · exact absurd hp (strictOp_path hst (Or.inr (Or.inl hk)) hpath)
+    · exact absurd hp (strictOp_path hst (Or.inr (Or.inr hk)) hpath)
+    · exact absurd rfl hnt
   | some toks =>
     have hq : ∀ x ∈ toks, QK true x = true := hop.toks path toks hpath hp
     simp only [specKind] at hkind
@@ -153,7 +231,7 @@ theorem applyOp_den_refines (neg : Bool) (root : Node) (hr : Inv root) (hc : isD
         simp [opDom, h1, hpath, hpe] at this
       | cons t ts =>
         cases hv : specValue op.value with
-        | none => rw [spec_novalue (Or.inl rfl) rfl]; trivial
+        | none => rw [spec_novalue (Or.inl rfl) rfl (by exact hp)]; trivial
         | some v =>
           exact opAdd_refines sz acc hr hc hpath rfl rfl hp rfl (Inv_valueNode hop)
             (den_valueNode hv) hq
@@ -177,7 +255,11 @@ theorem applyOp_den_refines (neg : Bool) (root : Node) (hr : Inv root) (hc : isD
             subst hkind
             rw [applyOp_move h4]
             cases hf : op.frm with
-            | ok f => exact opMove_refines sz acc hr hc hpath hf rfl rfl (by simp [fieldBytes]) hp hq
+            | ok f =>
+              cases hpf : Spec.parsePointer f with
+              | none => exact absurd hpf (strictOp_frm hst h4 hf)
+              | some ftoks =>
+                exact opMove_refines sz acc hr hc hpath hf rfl rfl (by simp [fieldBytes]) hp hq hpf
             | missing =>
               rw [Impl.spec_move_root rfl (by exact hp) (by simp [fieldBytes, Spec.parsePointer])]
               simp [OpRefL, listed]
@@ -232,7 +314,7 @@ operation succeeds exactly when the specification does (for the listed failure c
 states are related again -/
 theorem applyOp_refines (neg : Bool) (root : Node) (d : Value) (hrel : Rel root d)
     (op : Op) (sop : Spec.Op) (hs : specOp op = some sop) (hop : OpOK op)
-    (sz acc : Nat) (acci : Int) :
+    (hst : strictOp op = true) (sz acc : Nat) (acci : Int) :
     match Spec.applyOp (specOpts neg) sz acc d sop with
     | .ok (d', _) => ∃ r' a, applyOp neg 0 root acci op = .ok (r', a) ∧ Rel r' d'
     | .fail c => listed sop.kind c = true → ∃ e, applyOp neg 0 root acci op = .err e
@@ -252,7 +334,10 @@ theorem applyOp_refines (neg : Bool) (root : Node) (d : Value) (hrel : Rel root 
     have hfst := applyOp_test (neg := neg) (limit := 0) (root := root) (acci := acci) hkt
     have hwant : (specValue op.value).getD .null = wantOf op.value := rfl
     cases hp : Spec.parsePointer path with
-    | none => rw [spec_nopointer (by exact hp)]; trivial
+    | none =>
+      -- the specification fails with a cause that is not listed for `test`
+      rw [Impl.spec_path_none (by exact hp) (Or.inr (Or.inr (Or.inl rfl)))]
+      simp [listed]
     | some toks =>
       cases toks with
       | nil =>
@@ -328,7 +413,7 @@ theorem applyOp_refines (neg : Bool) (root : Node) (d : Value) (hrel : Rel root 
               | true => trivial
               | false => exact fun _ => ⟨er, fstOutL_err h1⟩
   · -- every other kind: congruence of the specification + refinement on `den root`
-    have hden := applyOp_den_refines neg root hr hc op sop hs hop hk sz acc acci
+    have hden := applyOp_den_refines neg root hr hc op sop hs hop hst hk sz acc acci
     have hvnd : ∀ v, sop.value = some v → v.noDup = true := by
       obtain ⟨k, path, _, _, rfl⟩ := specOp_some hs
       exact specValue_noDup hop
@@ -389,6 +474,7 @@ theorem applyFrom_fail_ge (o : Spec.Opts) (sizeAt : Nat → Nat) : ∀ (sops : L
 theorem applyOps_refines_rel (neg : Bool) (sizeAt : Nat → Nat) :
     ∀ (ops : List Op) (sops : List Spec.Op) (root : Node) (d : Value) (i acc : Nat) (acci : Int),
       Rel root d → specOps ops = some sops → (∀ op ∈ ops, OpOK op) →
+      (∀ op ∈ ops, strictOp op = true) →
       match Spec.applyFrom (specOpts neg) sizeAt i acc d sops with
       | .ok v => ∃ r', applyOps neg 0 root acci ops = .ok r' ∧ Rel r' v
       | .fail j c => listedAt sops i j c = true → ∃ e, applyOps neg 0 root acci ops = .err e
@@ -396,13 +482,13 @@ theorem applyOps_refines_rel (neg : Bool) (sizeAt : Nat → Nat) :
   intro ops
   induction ops with
   | nil =>
-    intro sops root d i acc acci hrel hs _
+    intro sops root d i acc acci hrel hs _ _
     simp only [specOps, Option.some.injEq] at hs
     subst hs
     simp only [Spec.applyFrom, applyOps]
     exact ⟨root, rfl, hrel⟩
   | cons op ops ih =>
-    intro sops root d i acc acci hrel hs hops
+    intro sops root d i acc acci hrel hs hops hsts
     simp only [specOps] at hs
     cases hso : specOp op with
     | none => rw [hso] at hs; cases hs
@@ -414,7 +500,7 @@ theorem applyOps_refines_rel (neg : Bool) (sizeAt : Nat → Nat) :
         simp only [Option.some.injEq] at hs
         subst hs
         have h1 := applyOp_refines neg root d hrel op s hso (hops op List.mem_cons_self)
-          (sizeAt i) acc acci
+          (hsts op List.mem_cons_self) (sizeAt i) acc acci
         simp only [Spec.applyFrom, applyOps]
         cases hres : Spec.applyOp (specOpts neg) (sizeAt i) acc d s with
         | unspec => trivial
@@ -433,6 +519,7 @@ theorem applyOps_refines_rel (neg : Bool) (sizeAt : Nat → Nat) :
           rw [hr']
           simp only
           have := ih ss r' d' (i + 1) acc' a hrel' hss (fun op' h => hops op' (List.mem_cons_of_mem _ h))
+            (fun op' h => hsts op' (List.mem_cons_of_mem _ h))
           cases hrest : Spec.applyFrom (specOpts neg) sizeAt (i + 1) acc' d' ss with
           | unspec => trivial
           | ok v => rw [hrest] at this; exact this
